@@ -33,3 +33,131 @@ pub fn perm_from_keys(keys: &[u16], n: usize) -> Vec<usize> {
     }
     perm
 }
+
+/// Iterator-protocol laws for an iterator type, given a way to make fresh copies of the same
+/// iteration (`mk`).  The item sequence of a plain `next()` loop is the reference; checked against
+/// it: `size_hint` brackets the number of remaining items at every position, `count`, `last`,
+/// `nth` (also past the end) agree, and `next` keeps returning None after the end.  Returns the
+/// reference sequence, or a description of the first law broken.
+pub fn iter_laws<I, T>(mk: impl Fn() -> I, cap: usize) -> Result<Vec<T>, String>
+where
+    I: Iterator<Item = T>,
+    T: PartialEq + std::fmt::Debug,
+{
+    let mut reference: Vec<T> = Vec::new();
+    {
+        let mut it = mk();
+        loop {
+            let (lo, hi) = it.size_hint();
+            match it.next() {
+                Some(x) => {
+                    reference.push(x);
+                    if reference.len() > cap {
+                        return Err(format!("more than {cap} items"));
+                    }
+                    // the hint taken before this item must have allowed for at least one more
+                    if hi == Some(0) {
+                        return Err(format!("size_hint upper bound 0 before item {} was yielded", reference.len() - 1));
+                    }
+                    let _ = lo;
+                }
+                None => {
+                    if lo != 0 {
+                        return Err(format!("size_hint lower bound {lo} at the end of the iteration"));
+                    }
+                    if it.next().is_some() {
+                        return Err("next() yields an item after None".into());
+                    }
+                    break;
+                }
+            }
+        }
+    }
+    let n = reference.len();
+    // size_hint at every position
+    {
+        let mut it = mk();
+        for k in 0..=n {
+            let (lo, hi) = it.size_hint();
+            let left = n - k;
+            if lo > left || hi.map_or(false, |h| h < left) {
+                return Err(format!("size_hint() = ({lo}, {hi:?}) with {left} of {n} items left"));
+            }
+            if k < n {
+                it.next();
+            }
+        }
+    }
+    let c = mk().count();
+    if c != n {
+        return Err(format!("count() = {c}, a next() loop yields {n} items"));
+    }
+    let l = mk().last();
+    if l.as_ref() != reference.last() {
+        return Err(format!("last() = {l:?}, expected {:?}", reference.last()));
+    }
+    for k in [0usize, 1, n / 2, n.saturating_sub(1), n, n + 3] {
+        let mut it = mk();
+        let got = it.nth(k);
+        if got.as_ref() != reference.get(k) {
+            return Err(format!("nth({k}) = {got:?}, expected {:?}", reference.get(k)));
+        }
+        // nth consumes k+1 items: the rest follows
+        let rest: Vec<T> = it.take(cap).collect();
+        let want = if k + 1 <= n { &reference[k + 1..] } else { &reference[n..] };
+        if rest != want {
+            return Err(format!("after nth({k}) the iterator yields {rest:?}, expected {want:?}"));
+        }
+    }
+    Ok(reference)
+}
+
+/// Additional laws of a double-ended iterator: `rev()` yields the reference reversed, and taking
+/// items alternately from both ends meets in the middle without loss or repetition.
+pub fn iter_laws_double_ended<I, T>(mk: impl Fn() -> I, reference: &[T]) -> Result<(), String>
+where
+    I: DoubleEndedIterator<Item = T>,
+    T: PartialEq + std::fmt::Debug,
+{
+    let n = reference.len();
+    let back: Vec<T> = mk().rev().take(n + 2).collect();
+    if back.len() != n || back.iter().zip(reference.iter().rev()).any(|(a, b)| a != b) {
+        return Err(format!("rev() yields {back:?}, expected the reverse of {reference:?}"));
+    }
+    let mut it = mk();
+    let (mut front, mut tail): (Vec<T>, Vec<T>) = (Vec::new(), Vec::new());
+    for step in 0..n + 2 {
+        let x = if step % 3 == 2 { it.next() } else { it.next_back() };
+        match x {
+            Some(x) if step % 3 == 2 => front.push(x),
+            Some(x) => tail.push(x),
+            None => break,
+        }
+    }
+    tail.reverse();
+    front.extend(tail);
+    if front.len() != n || front.iter().zip(reference.iter()).any(|(a, b)| a != b) {
+        return Err(format!("mixing next() and next_back() yields (in position order) {front:?}, expected {reference:?}"));
+    }
+    if it.next().is_some() || it.next_back().is_some() {
+        return Err("items left after both ends met".into());
+    }
+    Ok(())
+}
+
+/// `ExactSizeIterator::len` equals the number of remaining items at every position.
+pub fn iter_laws_exact<I, T>(mk: impl Fn() -> I, n: usize) -> Result<(), String>
+where
+    I: ExactSizeIterator<Item = T>,
+{
+    let mut it = mk();
+    for k in 0..=n {
+        if it.len() != n - k {
+            return Err(format!("len() = {} with {} of {n} items left", it.len(), n - k));
+        }
+        if k < n {
+            it.next();
+        }
+    }
+    Ok(())
+}
